@@ -380,6 +380,8 @@ func C04(ctx *core.Ctx) {
 
 	c04ReceivedContext(ctx, r)
 	c04StreamAndLoop(ctx, r, enc)
+	c04ReaderOnlyRead(ctx, r)
+	c04ResponseHeadersReachContext(ctx, r)
 
 	// ---- S5 ---------------------------------------------------------------------------
 	py := filepath.Join(ctx.RepoDir, "lib/python/frugal/util/headers.py")
